@@ -1,8 +1,11 @@
 """C02 — level gating through the real global plumbing (init_config / Handle::set_config /
 log::max_level / log::logger().enabled / log! and log_enabled! macros).
-case: ( (cfg ...) ((target level) ...) )
-      cfg = ( (appname ...) (rootlevel (appname ...)) ((name level additive (appname ...)) ...) )
-result: per step ( global_max reported_max ( (logger_enabled macro_enabled (idx ...)) per probe ) )
+case: ( (step ...) ((target level) ...) )
+      step = ( (appname ...) (rootlevel (appname ...)) ((name level additive (appname ...)) ...) tweak dropprobe )
+      tweak = () | (level): config.root_mut().set_level(level) AFTER build(), before installing
+      dropprobe = () | (target level): appender 0 of this config logs it via log! from its Drop
+                  (= inside the next step's set_config, when the old SharedLogger is released)
+result: per step ( global_max reported_max ( (logger_enabled macro_enabled (idx ...)) per probe ) drop )
 One child process per case (the global logger can be installed once per process)."""
 import concurrent.futures
 import itertools
@@ -19,10 +22,19 @@ RULE = ("a case is a HISTORY: the first config is installed with init_config in 
         "(over all 9 in thorough), then random histories of length <= 8 over random configs "
         "(<= 7 loggers, depth <= 4, levels biased so that the maximum is often attained only by one deep "
         "descendant; consecutive configs often differ in one level only, going up or down). "
+        "About a third of the steps change the root level of the BUILT Config through root_mut().set_level "
+        "(the only post-build mutator of the public API; raised above / lowered below every logger, or random) "
+        "before it is installed; every non-final step whose config has an appender carries a drop probe: "
+        "appender 0 logs a record through log! from its Drop, which runs inside the next set_config - the "
+        "probe (chosen, when possible, at a level the new config admits and delivers but the old global max "
+        "does not) must reach what the NEW configuration prescribes. "
         "non-trivial = history with >= 2 steps whose maxima differ, or a config whose most verbose level "
         "is attained only by a non-root logger; distinct = distinct case line")
 ASSUMPTIONS = ["configs are built through Config::builder().build (valid: unique accepted names, appender "
                "references resolve); reconfiguration happens on the thread that logs (concurrent swaps are C15)",
+               "schedule coverage inside set_config is deterministic same-thread re-entrancy only: a record logged "
+               "from the Drop of a previous-config appender (released by the ArcSwap store, after the swap); no "
+               "second thread is raced against set_config (C15)",
                "log::STATIC_MAX_LEVEL is Trace (no max_level_* feature of `log` enabled in the harness build)",
                "delivery order among the appenders of one record is canonicalised (multiset comparison)",
                "the `log` crate's macros and set_max_level/max_level are exercised, not verified "
@@ -66,8 +78,77 @@ def probes_for(cfgs, extra=()):
     return [[t, L] for t in out for L in range(1, 6)]
 
 
-def mk(cfgs, extra=()):
-    return [list(cfgs), probes_for(cfgs, extra)]
+def eff_cfg(step):
+    """the configuration a step installs: root level replaced by the post-build tweak"""
+    root = step[1]
+    if len(step) > 3 and step[3]:
+        root = [step[3][0], root[1]]
+    return [step[0], root, step[2]]
+
+
+def route(cfg, target):
+    """(threshold, chain of appender names) the configuration prescribes for a target"""
+    comps = target.split("::")
+    by = {tuple(l[0].split("::")): l for l in cfg[2]}
+
+    def at(k):
+        while k > 0 and tuple(comps[:k]) not in by:
+            k -= 1
+        if k == 0:
+            return cfg[1][0], list(cfg[1][1])
+        lg = by[tuple(comps[:k])]
+        return lg[1], list(lg[3]) + (at(k - 1)[1] if lg[2] else [])
+    return at(len(comps))
+
+
+def _spec_max(cfg):
+    return max([cfg[1][0]] + [l[1] for l in cfg[2]])
+
+
+def pick_drop(rng, old, new):
+    """a (target, level) for the drop probe of `old`'s appender 0, fired while `new` is installed"""
+    if not old[0]:
+        return []
+    om = _spec_max(old)
+    ts = [l[0] for l in new[2]] + [l[0] + "::x" for l in new[2]] + ["", "x", "a", "a::b"]
+    good = []
+    for t in ts:
+        lvl, chain = route(new, t)
+        for L in range(om + 1, lvl + 1):
+            if 1 <= L <= 5 and chain:
+                good.append([t, L])
+    if good and rng.chance(5, 6):
+        return rng.choice(good)
+    return [rng.choice(ts), rng.range(1, 5)]
+
+
+def mk(cfgs, extra=(), rng=None, tweaks=None):
+    """cfgs: plain configs; tweaks: per step None or a level"""
+    steps = []
+    for k, c in enumerate(cfgs):
+        tw = [] if not tweaks or tweaks[k] is None else [tweaks[k]]
+        steps.append([c[0], c[1], c[2], tw, []])
+    effs = [eff_cfg(s) for s in steps]
+    if rng is not None:
+        for k in range(len(steps) - 1):
+            steps[k][4] = pick_drop(rng, effs[k], effs[k + 1])
+    return [steps, probes_for(cfgs, extra)]
+
+
+def rand_tweaks(rng, cfgs):
+    out = []
+    for c in cfgs:
+        r = rng.below(9)
+        hi = max([l[1] for l in c[2]] + [0])
+        if r == 0:
+            out.append(min(5, hi + 1))          # root raised above every logger
+        elif r == 1:
+            out.append(rng.below(max(1, min([l[1] for l in c[2]] + [c[1][0]]) + 1)))   # lowered
+        elif r == 2:
+            out.append(rng.below(6))
+        else:
+            out.append(None)
+    return out
 
 
 def rand_cfg(rng):
@@ -126,11 +207,15 @@ def cases(rng, tier):
     P = [POOL[n] for n in POOL_NAMES]
     for c in P:
         out.append(mk([c]))
+        out.append(mk([c], tweaks=[rng.below(6)]))
     for a, b in itertools.product(P, repeat=2):
-        out.append(mk([a, b]))
+        out.append(mk([a, b], rng=rng))
+        # same pair, the second (and sometimes the first) config modified after build()
+        out.append(mk([a, b], rng=rng, tweaks=[None if rng.chance(2, 3) else rng.below(6),
+                                                rng.choice([5, 0, rng.below(6)])]))
     triples = list(itertools.product(P[:6] if tier == "quick" else P, repeat=3))
     for t in triples:
-        out.append(mk(list(t)))
+        out.append(mk(list(t), rng=rng, tweaks=rand_tweaks(rng, t) if rng.chance(1, 3) else None))
     n_rand = 160 if tier == "quick" else 2500
     for _ in range(n_rand):
         n = rng.range(1, 8)
@@ -147,16 +232,12 @@ def cases(rng, tier):
         for _k in range(3):
             comps = [rng.choice(["a", "b", "ab", "c", "", ":", "x"]) for _ in range(rng.range(1, 4))]
             extra.append(rng.choice(["::", "::", ":", ":::"]).join(comps))
-        out.append(mk(cfgs, extra))
+        out.append(mk(cfgs, extra, rng=rng, tweaks=rand_tweaks(rng, cfgs)))
     return out
 
 
-def _spec_max(cfg):
-    return max([cfg[1][0]] + [l[1] for l in cfg[2]])
-
-
 def nontrivial(c):
-    cfgs = c[0]
+    cfgs = [eff_cfg(x) for x in c[0]]
     ms = [_spec_max(x) for x in cfgs]
     if len(set(ms)) >= 2:
         return True
@@ -164,16 +245,19 @@ def nontrivial(c):
 
 
 def classify(c):
-    ms = [_spec_max(x) for x in c[0]]
+    ms = [_spec_max(eff_cfg(x)) for x in c[0]]
     ups = sum(1 for a, b in zip(ms, ms[1:]) if b > a)
     downs = sum(1 for a, b in zip(ms, ms[1:]) if b < a)
-    return "steps=%d up=%d down=%d" % (len(c[0]), min(ups, 3), min(downs, 3))
+    tw = sum(1 for x in c[0] if len(x) > 3 and x[3])
+    return "steps=%d up=%d down=%d tweaked=%d" % (len(c[0]), min(ups, 3), min(downs, 3), min(tw, 2))
 
 
 def describe(c):
     def d(cfg):
         return {"appenders": cfg[0], "root": {"level": cfg[1][0], "appenders": cfg[1][1]},
-                "loggers": [{"name": l[0], "level": l[1], "additive": bool(l[2]), "appenders": l[3]} for l in cfg[2]]}
+                "loggers": [{"name": l[0], "level": l[1], "additive": bool(l[2]), "appenders": l[3]} for l in cfg[2]],
+                "root_level_set_after_build": (cfg[3][0] if len(cfg) > 3 and cfg[3] else None),
+                "drop_probe": (cfg[4] if len(cfg) > 4 and cfg[4] else None)}
     return {"history": [d(x) for x in c[0]], "probes": len(c[1])}
 
 
@@ -183,7 +267,7 @@ def compare(c, impl, model):
         return "result shape differs: impl=%r model=%r" % (str(impl)[:120], str(model)[:120])
     for k, (a, b) in enumerate(zip(impl, model)):
         what = "after step %d (%s)" % (k, "init_config" if k == 0 else "set_config")
-        if not (isinstance(a, list) and isinstance(b, list) and len(a) == 3 and len(b) == 3):
+        if not (isinstance(a, list) and isinstance(b, list) and len(a) == 4 and len(b) == 4):
             if a != b:
                 return "%s: impl=%r model=%r" % (what, str(a)[:120], str(b)[:120])
             continue
@@ -200,6 +284,11 @@ def compare(c, impl, model):
                 return "%s target %r level %d: log_enabled! = %r, threshold test = %r" % (what, t, L, x[1], y[1])
             if sorted(x[2]) != sorted(y[2]):
                 return "%s target %r level %d: log! reached appenders %r, routing prescribes %r" % (what, t, L, x[2], y[2])
+        da = [sorted(x) for x in a[3]] if isinstance(a[3], list) else a[3]
+        db = [sorted(x) for x in b[3]] if isinstance(b[3], list) else b[3]
+        if da != db:
+            return ("%s: record %r logged via log! from the Drop of a previous-config appender (inside set_config) "
+                    "reached %r, the new configuration prescribes %r" % (what, c[0][k - 1][4] if k else None, a[3], b[3]))
     return None
 
 
